@@ -369,14 +369,20 @@ class ExprMixin:
             tag = "bytes" if (isinstance(a, bytes) or (isinstance(a, Sym) and a.tag == "bytes")) else "str"
             ta, tb = str_term(a), str_term(b)
             r = Sym(tag, z3.Concat(ta, tb), origin=("concat", ta, tb))
+            from .contract import PLAIN
+            if tag == "str":
+                st.fact(Lemmas.str_concat_cells(r.t, [ta, tb], T.NOATTS))
+            for x, y in ((a, tb), (b, ta)):
+                if isinstance(x, Sym) and x.origin and x.origin[0] == "spaces":
+                    st.fact(PLAIN(r.t) == PLAIN(y))      # blanks next to a string cannot create or destroy "ESC["
             return r
         if isinstance(a, str) and is_int(b) and op == "Mult":
             if a == " ":
+                from . import spec as S
                 k = int_term(b)
                 r = T.SPACES(k)
-                st.fact(z3.Length(r) == z3.If(k > 0, k, 0), T.CELLS(r, T.NOATTS) == T.BLANKS(k),
-                        z3.Length(T.BLANKS(k)) == z3.If(k > 0, k, 0))
-                self.note_plain(r, st)
+                st.fact(z3.Length(r) == z3.If(k > 0, k, 0), T.CELLS(r, T.NOATTS) == S.blanks_term(k))
+                st.fact(S.drain())
                 return Sym("str", r, origin=("spaces", k))
             raise Unsupported("repetition of a string other than ' ' by a symbolic count")
         # lists
